@@ -201,6 +201,23 @@ Example ex_poll_defaults_hyps : absent "NAT" ex_poll /\ absent "AcceptedRelayPat
 Proof.
   repeat split; try (intros key x [H|[H|[H|[H|[]]]]]; injection H as <- <-; vm_compute; discriminate).
 Qed.
+Example ex_poll_pattern :
+  let v := JObj [(bs "Sid", JStr (bs "x")); (bs "Version", JStr (bs "1")); (bs "acceptedrelaypattern", JStr (bs "^a$"))] in
+  fptr v "AcceptedRelayPattern" = Some (bs "^a$") /\ exists r, decode_proxy_poll v = Ok r.
+Proof. split; [vm_compute; reflexivity | eexists; vm_compute; reflexivity]. Qed.
+Example ex_poll_response_no_nat :
+  let v := JObj [(bs "Status", JStr (bs "client match")); (bs "Offer", JStr (bs "o"))] in
+  absent "NAT" v /\ decode_poll_response v = Ok (bs "o", bs "unknown", []).
+Proof.
+  split; [|vm_compute; reflexivity].
+  intros key x [H|[H|[]]]; injection H as <- <-; vm_compute; discriminate.
+Qed.
+Example ex_client_body_defaults :
+  let v := JObj [(bs "offer", JStr (bs "o"))] in
+  absent "nat" v /\ absent "fingerprint" v /\ decode_client_poll_body v = Ok (bs "o", bs "unknown", DEFAULT_FINGERPRINT).
+Proof.
+  repeat split; try (intros key x [H|[]]; injection H as <- <-; vm_compute; discriminate).
+Qed.
 Example ex_poll_rejected : decode_proxy_poll (JObj [(bs "Sid", JStr (bs "x")); (bs "Version", JStr (bs "10.0"))]) = Err.
 Proof. vm_compute. reflexivity. Qed.
 Example ex_roundtrip_hyps : bs "sid" <> [] /\ valid_nat (bs "restricted") /\ int64 (-9223372036854775808)%Z
